@@ -470,6 +470,7 @@ class Evaluator:
         defaults = [None] * (len(names) - len(a.defaults)) + list(a.defaults)
         outer = self
         is_gen = any(isinstance(n, (ast.Yield, ast.YieldFrom)) for st in fn.body for n in ast.walk(st))
+        rebinds = {nm for st in fn.body if isinstance(st, ast.Nonlocal) for nm in st.names}   # `nonlocal x`: rebinding x is seen by the enclosing call
 
         def call(*vals, **kw):
             saved, saved_y = dict(outer.locals), outer.yields
@@ -491,7 +492,10 @@ class Evaluator:
                     ret = r.value
                 return list(outer.yields) if is_gen else ret
             finally:
-                # closures may update enclosing containers in place, but local rebinding stays local
+                # closures may update enclosing containers in place, but local rebinding stays local -- except for names declared nonlocal
+                for nm in rebinds:
+                    if nm in outer.locals:
+                        saved[nm] = outer.locals[nm]
                 outer.locals = saved
                 outer.yields = saved_y
 
@@ -777,7 +781,7 @@ class Evaluator:
             raise _Continue()
         elif isinstance(st, ast.Break):
             raise _Break()
-        elif isinstance(st, (ast.Pass, ast.Import, ast.ImportFrom)):
+        elif isinstance(st, (ast.Pass, ast.Import, ast.ImportFrom, ast.Nonlocal)):
             pass  # imported names are resolved through the table of supplied callables when they are used
         elif isinstance(st, ast.Expr) and isinstance(st.value, ast.Yield):
             self._emit(self.ev(st.value.value) if st.value.value is not None else None)
